@@ -14,9 +14,9 @@ func init() { register("C08", checkC08) }
 // compactKeyRole resolves "the compaction record key": the scanner Config field that the floor check reads, and the
 // constructor function(s) whose result is stored into that field.
 type compactKeyRole struct {
-	p      *Prog
-	field  *types.Var
-	ctors  map[*ssa.Function]bool
+	p        *Prog
+	field    *types.Var
+	ctors    map[*ssa.Function]bool
 	readGets []*ssa.Call // read-only comparisons of the record (the floor check proper)
 }
 
